@@ -35,6 +35,17 @@ Section Get.
     end.
   Definition hier_get (d : digest) : outcome D * list digest :=
     hier_get_chain (rev (parents_of d)) [].
+
+  (** Specification: going from the most specific name upwards, the first
+      answer that is not NOT_FOUND decides; NOT_FOUND if there is none. *)
+  Fixpoint first_answer (chain : list digest) : outcome D :=
+    match chain with
+    | [] => Err NOT_FOUND
+    | a :: r => match get a with
+                | Err e => if e =? NOT_FOUND then first_answer r else Err e
+                | x => x
+                end
+    end.
 End Get.
 
 Section GetFromComposite.
